@@ -53,6 +53,8 @@ const SPECIALS: &[&[&str]] = &[
     &["@metric_prefixes\n@aliases(foobar_pn: none, fbpn: short)\nunit foobar_pn: Length", "2 kfbpn", "3 fbpn + 1 foobar_pn"],
     // nested powers in dimension expressions
     &["dimension Q_np1 = (Length^2)^3", "dimension Q_np2 = (Length²)^(1/2) / Time", "let q_np: (Length^2)^(1/2) = 2 m", "fn f_np(x: (Time^-1)^2) -> (Time^2)^-1 = x"],
+    // literal exponents next to the ²/³ shortcut and the ⁻¹ spellings
+    &["2^2.5", "2^3.5", "(2 m)^2.5", "2^2.0", "2^3.0", "2^1.5", "2^0.5", "2^-2.5", "(3 s)^-2", "(3 s)^(-3)", "2^4", "(2 m)^(3/2)", "2^(2 + 1)", "2^-1", "(4 m^2)^0.5"],
 ];
 
 #[derive(Clone, Debug, Serialize, Deserialize)]
